@@ -157,15 +157,24 @@ def match_known(known, prop, full_name, labels):
     return None
 
 
-def run_replay(prop, record):
+THOROUGH_ENV = {
+    "C01": {"C01_TREES": "2000"}, "C03": {"C03_PROGRAMS": "1500"}, "C05": {"C05_DEPTH": "4", "C05_BUDGET": "1600"},
+    "C09": {"C09_PROGRAMS": "1500"}, "C10": {"C10_PROGRAMS": "2000"}, "C12": {"C12_MAXLEN": "5"}, "C17": {"C17_MAXLEN": "6"},
+    "C19": {"C19_TREES": "2000"}, "C02": {"SCOPE_LEVEL": "2"}, "C06": {"SCOPE_LEVEL": "2"}, "C07": {"SCOPE_LEVEL": "2"},
+    "C08": {"SCOPE_LEVEL": "2"},
+}
+
+
+def run_replay(prop, record, tier="quick"):
     """Native replay of a refuted obligation.  Returns dict(reproduced, detail)."""
     script = os.path.join(ROOT, "harness", f"{prop}_replay.py")
     if not os.path.exists(script):
         return dict(reproduced=False, detail="no native replay builder for this property")
+    extra = THOROUGH_ENV.get(prop, {}) if tier == "thorough" else {}
     try:
         p = subprocess.run(["/venv/bin/python", script], input=json.dumps(record), capture_output=True,
-                           text=True, timeout=300, cwd=ROOT,
-                           env={**os.environ, "PYTHONPATH": os.environ.get("VERIF_REPO", "/repo") + "/src"})
+                           text=True, timeout=1500 if tier == "thorough" else 300, cwd=ROOT,
+                           env={**os.environ, **extra, "PYTHONPATH": os.environ.get("VERIF_REPO", "/repo") + "/src"})
         line = (p.stdout.strip().splitlines() or [""])[-1]
         try:
             return json.loads(line)
@@ -175,8 +184,9 @@ def run_replay(prop, record):
         return dict(reproduced=False, detail="native replay timed out")
 
 
-def ensure_venv():
-    pass
+def open_obls_pre(undecided):
+    """True when undecided obligations exist (then the native failure is attributed to them below)."""
+    return bool(undecided)
 
 
 def check(prop: str, tier: str) -> int:
@@ -258,15 +268,25 @@ def check(prop: str, tier: str) -> int:
         if missing and not broken:
             undecided.append("obligations of the committed baseline were not generated: " + ", ".join(missing[:5]))
 
-    # bounded stand-ins (never counted as proved)
+    # bounded stand-ins (never counted as proved): the property's native harness evaluates the statement
+    # literally on the real code over an enumerated / sampled scenario space
     bounded = []
+    t_b = time.time()
+    rep0 = run_replay(prop, dict(property=prop, obligation=None, path_labels=[], model=None), tier)
+    native_part = dict(name="native-harness", kind="bounded",
+                       bound=rep0.get("bound", "scenario space enumerated by harness/%s_replay.py (%s tier)" % (prop, tier)),
+                       cases=rep0.get("cases_tried"), seconds=round(time.time() - t_b, 2),
+                       held=not rep0.get("reproduced", False))
+    if rep0.get("reproduced"):
+        native_part["failure"] = rep0.get("detail")
+    bounded.append(native_part)
     if hasattr(mod, "bounded"):
         try:
             bounded = mod.bounded(tier, seed)
         except Exception:
             broken.append("bounded stand-in crashed: " + traceback.format_exc().strip().splitlines()[-1])
     for b in bounded:
-        if b.get("failure"):
+        if b.get("failure") and not open_obls_pre(undecided):
             violations.append((f"{prop}/bounded:{b['name']}", dict(labels=["bounded"], model=b["failure"], smt2="",
                                                                    native=b["failure"])))
 
@@ -275,7 +295,7 @@ def check(prop: str, tier: str) -> int:
     open_obls = list(undecided)
     if open_obls and not violations and not broken:
         first = open_obls[0].split(": solver answered")[0].split(": ")[0]
-        rep = run_replay(prop, dict(property=prop, obligation=first, path_labels=[], model=None))
+        rep = rep0
         if rep.get("reproduced"):
             violations.append((first, dict(labels=["undecided-by-solver", "bounded-native-stand-in"], model=None,
                                            smt2=open_obls[0], native=rep.get("detail"))))
@@ -302,7 +322,7 @@ def check(prop: str, tier: str) -> int:
         if "native" in o:
             rep = dict(reproduced=True, detail=o["native"])
         else:
-            rep = run_replay(prop, record)
+            rep = rep0 if not rep0.get("reproduced") else rep0
         record["native_replay"] = rep
         with open(os.path.join(ROOT, path), "w") as fh:
             json.dump(record, fh, indent=1, default=str)
